@@ -151,3 +151,29 @@ def expected_def_view(vec, dev_name):
 def strip_timestamp(view):
     cls, attrs, val, kids = view
     return (cls, tuple((k, v) for k, v in attrs if k != "timestamp"), val, kids)
+
+
+def variant_b_classes():
+    """A second definition: inheritance depth 2, a group and a vector that are
+    disabled by definition, an AtMostOne switch vector, a wide-format number."""
+    from indi.device import Driver, properties
+    if "b" in _RICH:
+        return _RICH["b"]
+
+    class BBase(Driver):
+        name = "BBASE"
+        hid = properties.Group("HID", enabled=False, vectors=dict(
+            txt=properties.TextVector("HTXT", elements=dict(a=properties.Text("A", default="hidden")))))
+
+    class B(BBase):
+        name = "DEVB"
+        vis = properties.Group("VIS", vectors=dict(
+            amo=properties.SwitchVector("AMO", rule="AtMostOne", elements=dict(
+                x=properties.Switch("X"), y=properties.Switch("Y"), z=properties.Switch("Z"))),
+            off=properties.NumberVector("OFFNUM", enabled=False, elements=dict(
+                n=properties.Number("N", format="%6.2f", default=1.5), d=properties.Number("D", format="%010.6m", default=-0.5))),
+            txt=properties.TextVector("VTXT", state="Busy", perm="ro", elements=dict(a=properties.Text("A", default="seen"))),
+        ))
+
+    _RICH["b"] = (B, BBase)
+    return _RICH["b"]
